@@ -374,6 +374,7 @@ class FakeCluster:
     def compact(self, rdef: ResourceDef) -> None:
         """Forget the whole event history of a kind (so that older versions yield 410 Gone)."""
         self.history[rdef.key] = []
+        self.rv += 1  # the store's revision moves on with writes to other kinds; older versions are compacted away
         self.history_floor[rdef.key] = self.rv
         self.sim.count('fault.compaction')
 
